@@ -164,6 +164,7 @@ func main() {
 	verbose := flag.Bool("v", false, "verbose")
 	noEvidence := flag.Bool("noevidence", false, "do not write evidence")
 	replayFile := flag.String("replay", "", "natively replay one counterexample record and print the native log")
+	crosscheck := flag.String("crosscheck", "", "second solver binary (e.g. z3-new, cvc5): the whole exploration is repeated with it and the per-assertion verdicts must agree")
 	validateN := flag.Int("validate", -1, "completed paths per harness whose solver-chosen inputs are replayed natively to validate the translation (default 3 quick / 8 thorough)")
 	boundsOv := flag.String("bounds", "", "override tier bounds, e.g. K=1,M=1 (debugging; evidence records the bounds actually used)")
 	flag.StringVar(&verifDir, "verif", "/verif", "verif dir")
@@ -391,6 +392,44 @@ func main() {
 	}
 	inconclusive := oc.inconclusive
 	violations, knownHits, replays, outLines, sampleCex := oc.violations, oc.knownHits, oc.replays, oc.lines, oc.samples
+	// ---- cross-check with a second solver: same harnesses, same bounds, verdicts per assertion must agree
+	crossNote := ""
+	if *crosscheck != "" {
+		rc2 := *rc
+		rc2.solverBin = *crosscheck
+		rc2.validate = 0
+		for _, h := range sel {
+			h.precise = results[h.ID] != nil && strings.Contains(results[h.ID].Desc, "precise re-run")
+		}
+		res2 := rc2.explore(sel)
+		agree := true
+		for _, h := range sel {
+			a, b := results[h.ID], res2[h.ID]
+			if a.Paths != b.Paths || a.Done != b.Done {
+				agree = false
+				outLines = append(outLines, fmt.Sprintf("SOLVER-DISAGREEMENT harness=%s paths %d/%d vs %d/%d (%s vs %s)", h.ID, a.Done, a.Paths, b.Done, b.Paths, *solverBin, *crosscheck))
+			}
+			for sid, sa := range a.Sites {
+				sb := b.Sites[sid]
+				if sb == nil || sa.Failed != sb.Failed || sa.Discharged+sa.Trivial != sb.Discharged+sb.Trivial || sa.Known != sb.Known {
+					agree = false
+					outLines = append(outLines, fmt.Sprintf("SOLVER-DISAGREEMENT harness=%s assert=%s (%s vs %s)", h.ID, sid, *solverBin, *crosscheck))
+				}
+			}
+			for _, in := range b.Inconcl {
+				if strings.Contains(in, "solver") {
+					agree = false
+					outLines = append(outLines, fmt.Sprintf("SOLVER-DISAGREEMENT harness=%s second solver inconclusive: %s", h.ID, in))
+				}
+			}
+		}
+		if agree {
+			crossNote = "all per-assertion verdicts agree between " + *solverBin + " and " + *crosscheck
+		} else {
+			crossNote = "DISAGREEMENT between " + *solverBin + " and " + *crosscheck
+			inconclusive = true
+		}
+	}
 	// ---- translator validation: inputs of sampled completed paths must run natively without any
 	// assertion failure or panic (the engine has shown every assertion holds on those paths)
 	{
@@ -459,7 +498,11 @@ func main() {
 	// ---- evidence
 	wall := time.Since(t0).Seconds()
 	if !*noEvidence {
-		writeEvidence(*prop, *tier, seed, sel, results, *out, wall, loadTime.Seconds(), violations, knownHits, replays, sampleCex, *solverBin, *timeout, inconclusive)
+		solvers := *solverBin
+		if *crosscheck != "" {
+			solvers += " + " + *crosscheck + " (" + crossNote + ")"
+		}
+		writeEvidence(*prop, *tier, seed, sel, results, *out, wall, loadTime.Seconds(), violations, knownHits, replays, sampleCex, solvers, *timeout, inconclusive)
 	}
 	for _, h := range sel {
 		r := results[h.ID]
